@@ -74,15 +74,9 @@ def runReq (ps : List (Bytes × Bytes)) (body sent : Bytes) (impl : String) : An
   let ord := match dec with
     | some r => reorder ps (r.pairs.map (·.1))
     | none => ps
-  let model := match encodeRequest ord sent with
-    | some bs => rle bs
-    | none =>
-      match ord.find? (fun p => panics p.1 p.2) with
-      | some p => "PANIC:runtime error: slice bounds out of range [:-" ++ toString (8 + p.1.length - maxWrite) ++ "]"
-      | none => "PANIC"
+  let model := rle (encodeRequest ord sent)
   let big := ps.any (fun p => p.1.length + p.2.length > 60000)
   let willTrunc := ps.any (fun p => 8 + p.1.length + p.2.length > maxWrite)
-  let willPanic := ps.any (fun p => panics p.1 p.2)
   let nParamRecs := match implBytes.bind parse with
     | some rs => (rs.filter (fun r => r.typ == 4)).length
     | none => 0
@@ -90,18 +84,17 @@ def runReq (ps : List (Bytes × Bytes)) (body sent : Bytes) (impl : String) : An
     | some rs => (rs.filter (fun r => r.typ == 5)).length
     | none => 0
   let verdict :=
-    if impl.startsWith "PANIC" then (if willPanic then "FAIL:key-too-long-panic" else "FAIL:panic")
+    if impl.startsWith "PANIC" then "FAIL:panic"
     else match dec with
       | some r =>
         if r.pairs == ord && r.body == body then "ok"
         else if r.body != body then (if sent != body then "FAIL:body-cut-at-empty-read" else "FAIL:body")
-        else if willTrunc && r.pairs == ord.map truncPair then "FAIL:value-truncated"
         else "FAIL:params"
       | none => "FAIL:undecodable"
   { model := model
     verdict := verdict
     tags := ["req"] ++ (if ps.length > 0 || body.length > 0 then ["nt"] else []) ++ (if big then ["big"] else [])
-      ++ (if willTrunc && !willPanic then ["trunc"] else []) ++ (if willPanic then ["panic"] else [])
+      ++ (if willTrunc then ["spill"] else [])
       ++ (if nParamRecs > 2 then ["flush"] else []) ++ (if nBodyRecs > 2 then ["body-multi"] else [])
       ++ (if ps.length > 8 then ["many"] else []) }
 
@@ -263,9 +256,7 @@ def runRT (i : RtIn) (body : Bytes) (reply : Bytes) (impl : String) : Ans :=
     let respBad := modelled && (match specDump with
       | some sd => sd != dump
       | none => false)
-    let model := (match encodeRequest ord body with
-      | some bs => rle bs
-      | none => "PANIC") ++ " " ++ mdump
+    let model := rle (encodeRequest ord body) ++ " " ++ mdump
     let overridden (k : Bytes) : Bool := i.envVars.any (fun p => upper p.1 == k)
     let verdict : String := match dec with
       | none => "FAIL:undecodable"
